@@ -342,6 +342,13 @@ def _run_case(case, ctx):
         rank = min(rank, min(data["shape"][0]), data["shape"][1][1])
     seed = int(rs.randint(0, 2 ** 31 - 1))
     K = (14 if which == "nn_modes-C-only+linesearch" else 10) if "linesearch" in which else 6
+    if algo == "parafac" and "linesearch" in which and data["kind"] == "tensor" and rs.rand() < 0.7:
+        # data recorded in small units (norm well below one) and a longer run: the line search's acceptance test compares like with
+        # like whatever the units, and later jumps are longer
+        u_ = float(gen.choice(rs, [1e-3, 1e-6]))
+        data = dict(data, X=data["X"] * u_, cls=data["cls"] + "*unit%g" % u_)
+        K = 18
+        ctx.count("linesearch_small_units")
     user_init = None
     if algo == "tucker" and rs.rand() < 0.3:
         # complex-valued data: HOOI must use conjugate transposes throughout
